@@ -133,16 +133,23 @@ Theorem C03_whole_step_speed_le_target : forall (e : Env (F:=R)) pts fmax (s s''
     (BrakeAdequate ax -> k_speed (ts_k (sl_st s'')) <= k_speed_target (ts_k (sl_st s''))).
 Proof. exact sl_full_step_speed_le_target. Qed.
 
-(* known finding C03/2 shown of the faithful model (proofs/StepReverseWitness.v, binary64 instance, evaluated by the
-   kernel): positive speed, positive time step and mass, the step is accepted with a positive target - and ends with a
-   negative speed.  C03_step_speed_nonneg needs its hypothesis TractionAdequate; the real step() returns the
-   bit-identical state on this input (harness case sl_step/sl18/334 of VERIF_SEED 20268920). *)
-Theorem C03_never_reverses_refuted_without_traction :
+(* finding C03/2, REPAIRED in /repo (fix: the "sufficient power to move" guard also refuses a step that would end with a
+   negative speed): every accepted step has adequate traction, so "never reverses" holds of every accepted step with no
+   hypothesis on the traction left ... *)
+Theorem C03_step_never_reverses : forall (e : Env (F:=R)) pts cl (s s' : SLState (F:=R)) ax,
+  sl_solve_step_aux e pts cl s = Ok (s', ax) ->
+  0 < k_dt (ts_k (sl_st s)) -> 0 < mass_compound (ts_p (sl_st s)) ->
+  0 <= k_speed (ts_k (sl_st s)) -> 0 <= k_speed_target (ts_k (sl_st s')) ->
+  0 <= k_speed (ts_k (sl_st s')) /\ 0 <= ax_speed_raw ax.
+Proof. exact step_never_reverses. Qed.
+
+(* ... and the input that was its witness (positive speed, time step and mass; harness case sl_step/sl18/334 of VERIF_SEED
+   20268920, on which the unrepaired step() ended at -0.0144 m/s) is now refused with error 1302, at binary64, evaluated
+   by the kernel (proofs/StepReverseWitness.v) *)
+Theorem C03_former_reversal_now_rejected :
   StepReverseWitness.pre_ok StepReverseWitness.rw_s = true /\
-  exists s', sl_step StepReverseWitness.rw_env StepReverseWitness.rw_pts StepReverseWitness.rw_cl StepReverseWitness.rw_s = Ok s' /\
-             PrimFloat.ltb 0%float (k_speed_target (ts_k (sl_st s'))) = true /\
-             PrimFloat.ltb (k_speed (ts_k (sl_st s'))) 0%float = true.
-Proof. exact StepReverseWitness.step_reverses_witness. Qed.
+  sl_step StepReverseWitness.rw_env StepReverseWitness.rw_pts StepReverseWitness.rw_cl StepReverseWitness.rw_s = Err 1302.
+Proof. exact StepReverseWitness.former_reversal_now_rejected. Qed.
 
 (* (imported here, after the statements above, to keep their name resolution unchanged) *)
 From AltModel Require Import SpeedPoints PathGeom TrainEnergy WholeSim.
@@ -159,3 +166,25 @@ Theorem C03_dispatched_train : forall fuel_bp fuel_steps (net : list LinkR) (tp 
   0 <= k_dt (ts_k st) -> 0 < mass_compound (ts_p st) ->
   tw_trace fmax (Forall pt_ok) limit_step ({| sl_st := st; sl_cache := cache; sl_fb := fb; sl_idx := 0 |}, con) x'.
 Proof. exact sl_timed_walk_limits. Qed.
+
+(* "never reverses" for whole steps, whole runs and a dispatched train (proofs/TimedTraceP.v): from a non-negative speed,
+   with a positive step size and mass and braking points with 0 <= target <= limit, every state of every accepted whole
+   run has a non-negative speed; every state on the trace of walk_timed_path too *)
+Theorem C03_whole_step_never_reverses : forall (e : Env (F:=R)) pts fmax (x x' : SLStateR * ConsistR),
+  Forall pt_ok pts -> sl_full_step e pts fmax x = Ok x' ->
+  0 < k_dt (ts_k (sl_st (fst x))) -> 0 < mass_compound (ts_p (sl_st (fst x))) ->
+  0 <= k_speed (ts_k (sl_st (fst x))) -> 0 <= k_speed (ts_k (sl_st (fst x'))).
+Proof. exact sl_full_step_never_reverses. Qed.
+
+Theorem C03_whole_run_never_reverses : forall (e : Env (F:=R)) pts fmax, Forall pt_ok pts -> forall k x y,
+  0 < k_dt (ts_k (sl_st (fst x))) -> 0 < mass_compound (ts_p (sl_st (fst x))) -> 0 <= k_speed (ts_k (sl_st (fst x))) ->
+  sl_full_run k e pts fmax x = Ok y -> 0 <= k_speed (ts_k (sl_st (fst y))).
+Proof. exact sl_full_run_never_reverses. Qed.
+
+Theorem C03_dispatched_train_never_reverses :
+  forall fuel_bp fuel_steps (net : list LinkR) (tp : TPR) tl rp fmax fb st cache (con : ConsistR) x',
+  sl_timed_walk fuel_bp fuel_steps net tp tl rp fmax fb st cache con = Ok x' ->
+  0 < k_dt (ts_k st) -> 0 < mass_compound (ts_p st) -> 0 <= k_speed (ts_k st) ->
+  tw_trace fmax (Forall pt_ok) nonneg_step ({| sl_st := st; sl_cache := cache; sl_fb := fb; sl_idx := 0 |}, con) x' /\
+  0 <= k_speed (ts_k (sl_st (fst x'))).
+Proof. exact sl_timed_walk_never_reverses. Qed.
